@@ -232,6 +232,11 @@ def shape_list(tier):
     add(("forall", "w", ("has", x, "w")))
     add(("and", ("has", x, "w"), ("cmp", ">", ("a", x), ("lit", 0))), False)
     add(("exists", y, ("exists", "z", ("and", XY[1], ("cmp", "<", ("a", y), ("a", "z"))))), False)
+    # quantifier alternation: the witness of the inner quantifier is found anew for every value of the outer variable
+    ZY = ("cmp", "==", ("a", "z"), ("a", y))
+    add(("and", X[1], ("forall", y, ("exists", "z", ZY))))
+    add(("forall", y, ("exists", "z", ("and", ZY, ("cmp", ">=", ("a", "z"), ("a", x))))), False)
+    add(("exists", y, ("forall", "z", ("and", ("cmp", ">=", ("a", "z"), ("a", y)), ("cmp", ">=", ("a", y), ("a", x))))), False)
     return out
 
 
